@@ -132,7 +132,7 @@ def c06(tier, seed):
     c = Check("C06", tier, seed)
     binary = vlib.build_harness()
     r = c.mc("MC_Iter", "MC_Iter_q" if tier == "quick" else "MC_Iter_t")
-    descs = dedupe([d for d in r["scenarios"] if d["pan"] == 0])
+    descs = dedupe([d for d in r["scenarios"] if d["pan"] == 0 and d.get("cpan", 0) == 0])
     # as_mut_slice is not a mechanism step of its own (it is as_slice with &mut): exercise it on
     # every reachable window position
     extra = []
@@ -186,7 +186,7 @@ def c05(tier, seed):
     c = Check("C05", tier, seed)
     binary = vlib.build_harness()
     r = c.mc("MC_Iter", "MC_Iter_fq" if tier == "quick" else "MC_Iter_ft")
-    descs = dedupe([d for d in r["scenarios"] if d["pan"] > 0 and d["f"] < d["pan"] <= d["b"]])
+    descs = dedupe([d for d in r["scenarios"] if d["pan"] > 0 and d["f"] < d["pan"] <= d["b"] and d.get("cpan", 0) == 0])
     scns = [iter_script(d, "C05") for d in descs]
     c.cov["exhaustive"] = True
     c.cov["bounds"] = {"N": "0..%d" % (4 if tier == "quick" else 6), "fault": "every choice of the single element whose destructor panics, every (front, back), every skip count 0..len+2"}
@@ -343,6 +343,8 @@ def c04(tier, seed):
     small = [1, 2, 3, 4] if tier == "quick" else [1, 2, 3, 4, 5, 6]
     scns += clone_default_scripts(small + [8], "C04", True)
     scns += iter_cb_fault_scripts(small, "C04")
+    ri = c.mc("MC_Iter", "MC_Iter_fq" if tier == "quick" else "MC_Iter_ft")
+    scns += [iter_script(d, "C04") for d in dedupe([d for d in ri["scenarios"] if d.get("cpan", 0) > 0 and d["pan"] == 0])]
     scns += collect_scripts([0, 1, 2, 3] if tier == "quick" else [0, 1, 2, 3, 4, 8], "C04", True, extra_hints=False)
     # the `internals` builders / consumer used directly and abandoned at every position 0..=N
     for n in ([0, 1, 2, 3, 4] if tier == "quick" else [0, 1, 2, 3, 4, 5, 8, 16]):
@@ -357,6 +359,7 @@ def c04(tier, seed):
     if tier != "quick":
         c.neg("MC_Build", "NEG_Build_consumer")
         c.neg("MC_Build", "NEG_Build_builder")
+        c.neg("MC_Iter", "NEG_Iter_clone")
     return c.finish()
 
 
@@ -444,7 +447,7 @@ def random_histories(rng, count, max_len, steps_n, max_vals=3):
                 nexth += 1
 
             if kind == "arr":
-                ops = ["into_iter", "into_iter", "into_iter", "box_new", "vec_from_arr", "bslice_from_arr", "map", "fold", "clone", "split"]
+                ops = ["zipx", "into_iter", "into_iter", "into_iter", "box_new", "vec_from_arr", "bslice_from_arr", "map", "fold", "clone", "split"]
                 if n <= 16:
                     ops += ["into_array", "into_native"]
                 if 1 <= n <= 12:
@@ -505,6 +508,13 @@ def random_histories(rng, count, max_len, steps_n, max_vals=3):
                     steps.append({"op": o, "recv": [h], "arg": i})
                     del vals[h]
                     out1("nested", n, i)
+                elif o == "zipx":
+                    # zip with a plain array of another element type (selects the drop-aware branch from both types)
+                    f = rng.choice(["own", "own", "ref"])
+                    steps.append({"op": o, "recv": [h], "form": [f], "side": rng.choice(["l", "r"]), "pform": rng.choice(["own", "ref"])})
+                    if f == "own":
+                        del vals[h]
+                    out1("arr", n)
                 elif o in ("map", "fold"):
                     f = rng.choice(["own", "ref", "mut"])
                     steps.append({"op": o, "recv": [h], "form": [f]})
@@ -750,7 +760,7 @@ def c09(tier, seed):
     scns = [seq_scripts(d, "C09") for d in descs]
     c.cov["exhaustive"] = True
     c.cov["bounds"] = {"model": "N in 0..8, every K <= N, every (N, M) with N+M <= 8, every index 0..N+1", "extra": "usize::MAX indices, lengths 9..12"}
-    c.conform(binary, with_etys(scns, ["tk", "zst", "plain"]), "owned")
+    c.conform(binary, with_etys(scns, ["tk", "zst", "plain", "tk24", "p1"]), "owned")
     rows = views_from_model(c, "MC_Views", lambda d: d["api"] in ("split_ref", "split_mut"))
     vs = []
     for d in rows:
@@ -762,7 +772,7 @@ def c09(tier, seed):
                 for e in ("unit", "u8", "b24"):
                     vs.append(view_scn("C09", api, e, n, n, k))
     c.conform(binary, vs, "split-by-ref", sub="views")
-    c.assumptions.append("element sizes 0 (zst, unit), 1 (u8), 8 (tk, plain, u64) and 24 bytes (b24); out-of-bounds reads whose result is discarded are visible only to the thorough tier's sanitizer build")
+    c.assumptions.append("owned operations: element sizes 0 (tracked zero-sized), 1 (plain), 8 (tracked, plain) and 24 bytes (tracked); by-reference split: 0, 1, 8, 24; out-of-bounds reads whose result is discarded are visible only to the thorough tier's sanitizer build")
     return c.finish()
 
 
@@ -1023,7 +1033,7 @@ def selftest():
         if n != 1:
             print("SELFTEST FAIL: %s was not rejected exactly once" % name)
             ok = False
-    for module, cfg in (("MC_Iter", "NEG_Iter_nth"), ("MC_Build", "NEG_Build_consumer"), ("MC_Build", "NEG_Build_builder"), ("MC_Collect", "NEG_Collect_noprobe"),
+    for module, cfg in (("MC_Iter", "NEG_Iter_nth"), ("MC_Iter", "NEG_Iter_clone"), ("MC_Build", "NEG_Build_consumer"), ("MC_Build", "NEG_Build_builder"), ("MC_Collect", "NEG_Collect_noprobe"),
                         ("MC_Heap", "NEG_Heap_asfound"), ("MC_Hex", "NEG_Hex_budget")):
         try:
             vlib.run_mc(module, cfg, expect_violation=True)
